@@ -211,6 +211,7 @@ def run(ctx, res):
                                                   'detail': 'adapter calls %s, expected %s' % (
                                                       sx.dumps(norm_calls(got))[:800], sx.dumps(norm_calls(ec))[:800]),
                                                   'key': {'method': meth, 'stage': 'delivery'}})
+    history_independence(ctx, res)
     # terminator independence on arbitrary bodies (not only encoder output)
     bodies = [l.rstrip(b'\r\n') for l in lines[::7]]
     outs = ctx.model([[sym('decode_line'), b + t] for b in bodies for t in (b'\r\n', b'\n', b'')])
@@ -225,6 +226,81 @@ def run(ctx, res):
         if not (a == c == e):
             res.disagreements.append({'case': {'body': b}, 'model': [a, c, e], 'impl': None,
                                       'relation': 'model: decode_line independent of terminator'})
+
+
+def _scribble(x, depth=0):
+    """mutate every mutable container reachable from a decoded request"""
+    if depth > 4:
+        return
+    if isinstance(x, dict):
+        for v in list(x.values()):
+            _scribble(v, depth + 1)
+        x['__scribbled__'] = 'X'
+    elif isinstance(x, list):
+        for v in x:
+            _scribble(v, depth + 1)
+        x.append('__scribbled__')
+    elif hasattr(x, '__dict__') and type(x).__module__.startswith('lightstreamer_adapter'):
+        for v in list(vars(x).values()):
+            _scribble(v, depth + 1)
+
+
+def history_independence(ctx, res):
+    """decoding depends on the tokens alone: what one call returned (and what its caller then did to it) never shows
+    up in a later call — in particular for empty maps / lists / no arguments at all"""
+    g = wire.Gen(ctx.rng)
+    n = 0
+    for meth in wire.REQUEST_METHODS:
+        qs = [g.request(meth) for _ in range(6)]
+        # the emptiest request of each shape
+        k = wire.SHAPE[meth]
+        empties = {'WInit': (k, []), 'WNUS': (k, 'u', 'p', []), 'WNUA': (k, 'u', 'p', 'c', []), 'WNNS': (k, 'u', 's', []),
+                   'WGIT': (k, []), 'WGUI': (k, 'u', []), 'WNNT': (k, 'u', 's', []), 'WNTC': (k, 's', [])}
+        if k in empties:
+            qs.append(empties[k])
+        for q in qs:
+            toks = [t.decode('ascii') for t in wire.encode_args(q)]
+            first = wire.reader_of(meth)(list(toks))
+            _scribble(first)
+            n += 1
+            res.evaluations += 1
+            res.count('history-independence')
+            kind, val = wire.impl_read(meth, list(toks))
+            exp = wire.expected_request(q)
+            if kind != 'ok' or val != exp:
+                res.oracle_violations.append({'case': {'method': meth, 'tokens': toks, 'request': repr(q)[:400]},
+                                              'detail': 'after the result of an earlier identical call was modified by its caller, decoding gives %s, expected %s'
+                                                        % (sx.dumps(val)[:600] if kind == 'ok' else (kind, val), sx.dumps(exp)[:600]),
+                                              'key': {'method': meth, 'stage': 'history'}})
+    # through the servers: a bare init on a server with local parameters, then requests without headers / context
+    for kind, init_line in (('meta', '1|MPI\r\n'), ('meta', '1|MPI|S|ARI.version|S|1.8.3\r\n'), ('data', '1|DPI|S|ARI.version|S|1.9.1\r\n')):
+        with fixture.patched() as env:
+            if kind == 'meta':
+                ad = fixture.metadata_adapter({'get_allowed_max_bandwidth': lambda u: 1.5, 'wants_tables_notification': lambda u: True,
+                                               'notify_user': lambda *a: None, 'notify_new_session': lambda *a: None,
+                                               'notify_user_with_principal': lambda *a: None})
+                srv = fixture.start_meta(env, ad, params={'local': 'L', 'other': 'M'}, handler=fixture.make_handler())
+            else:
+                ad = fixture.data_adapter({'issnapshot_available': lambda i: True})
+                srv = fixture.start_data(env, ad, params={'local': 'L'}, handler=fixture.make_handler())
+            fixture.feed(srv, init_line)
+            fixture.feed(srv, '0|CLOSEX\r\n')
+            n0 = len(ad.calls)
+            if kind == 'meta':
+                fixture.feed(srv, 'a1|NUS|S|u|S|p\r\n')
+                fixture.feed(srv, 'a2|NNS|S|u|S|s\r\n')
+                fixture.feed(srv, 'a3|NUA|S|u|S|p|S|c\r\n')
+                want = [('notify_user', 'u', 'p', {}), ('notify_new_session', 'u', 's', {}), ('notify_user_with_principal', 'u', 'p', {}, 'c')]
+                got = [c for c in ad.calls[n0:] if c[0] in ('notify_user', 'notify_new_session', 'notify_user_with_principal')]
+            else:
+                want, got = [], []
+            res.evaluations += 1
+            res.count('history-independence:server')
+            if got != want:
+                res.oracle_violations.append({'case': {'server': kind, 'init': init_line, 'local_params': True},
+                                              'detail': 'requests without headers / context after the init reached the adapter as %r, expected %r' % (got, want),
+                                              'key': {'stage': 'history', 'server': kind}})
+    return n
 
 
 def search(ctx, res):
